@@ -31,7 +31,7 @@ SPEC = {
     "shards": {"quick": 16, "thorough": 16},
     "exhaustive_note": "all labelled simple graphs on n<=4 vertices x 3^n colourings from {C, 13C, C radical} (quick); n=5 sampled in thorough",
     "monitors_required": ["c01_shadow_compare", "c01_trace_compare", "c01_exhaustive_class_compare"],
-    "required_obs": {"quick": ["shadow_inputs_with_noncontiguous_labels", "cov_foreign_attributes_with_common_names", "shadow_inputs_with_stale_partition", "shadow_inputs_relabelled_canonical_graph", "cov_multi_component", "cov_isotope_and_radical_on_one_atom", "cov_symmetric_partial_orbit",
+    "required_obs": {"quick": ["cov_debug_logging_enabled", "shadow_inputs_with_noncontiguous_labels", "cov_foreign_attributes_with_common_names", "shadow_inputs_with_stale_partition", "shadow_inputs_relabelled_canonical_graph", "cov_multi_component", "cov_isotope_and_radical_on_one_atom", "cov_symmetric_partial_orbit",
                                "cov_text_route_variant", "cov_v2000_text_route_variant", "cov_nontrivial_relabelling", "cov_corpus"]},
     "watchdog_s": {"quick": 900, "thorough": 3600},
 }
